@@ -2,20 +2,73 @@
 """Regenerates /verif/MANIFEST.json from the table below (kept here so it stays consistent)."""
 import json, sys
 
-CLAIMED = {
- # id: (technique, level text, level note, design ref)
+# properties whose check is not built yet (listed under not_applicable until it is)
+PENDING = set(sys.argv[1:])  # e.g. genmanifest.py C01 C04 ...
+
+REF = "the independent reference codec (refmodel: self-tested by decode(encode(v)) == v over the same generators and anchored to third-party byte vectors); conv's model<->struct mapping; rapid v1.3.0; the Go toolchain"
+
+C = {
+ "C01": ("bounded-exhaustive header/length sweep + rapid structured-hostile byte generation + native coverage-guided fuzzing (thorough), oracle: returns, no panic, allocated bytes and wall time bounded",
+         "Exploration: every one of the 24 decode entry points is driven directly (not only through rtcp.Unmarshal) with (a) an exhaustive sweep over total length x first octet x length field x fill patterns, (b) generated hostile inputs built from reference encodings with directed mutations of length/count/status-count fields, including the adaptive TWCC recipe that walks the 16-bit status counter to its wrap point and frames up to 256 KiB, (c) thorough: native go fuzzing with a seed corpus. The oracle is in the target: recovered panic, allocated bytes > 8 MiB + 128 x len, or wall time > 5 s is a violation.",
+         "Resource bounds are this check's reading of 'a fixed few MiB plus a small multiple of the input size' (constants justified in DESIGN.md C01); 'never hangs' is decided as 'returns within the bound on every generated input'."),
+ "C02": ("rapid generated values of every type in the well-formed domain D, round-trip oracle through both decoders + list round trip + re-marshal byte equality",
+         "Exploration: D-values of all 16 types (boundary-biased fields, lists at 0/1/max, text lengths mod 4, sequence wrap, TWCC chunkings ending at the packet end, compound packets) are marshalled and decoded through the type's own decoder and through rtcp.Unmarshal (which must return the same concrete type); lists go through rtcp.Marshal/Unmarshal; decoded packets must re-marshal to identical bytes. Expected values apply exactly the three documented quantisations, computed by the reference, not by pion.",
+         "Equality is on exported semantic fields with nil == empty (conv); " + REF),
+ "C03": ("rapid generated D-values, differential oracle: pion Marshal vs independently written RFC encoder, octet by octet with a don't-care mask for unspecified padding octets",
+         "Exploration: every D-value is encoded by pion and by refmodel (written from the RFC layouts, int arithmetic, no shared code); outputs must agree on every octet the specifications define. This sees layout errors made symmetrically in encoder and decoder, which no round trip can.",
+         REF),
+ "C04": ("rapid generated D-values x RFC-permitted variant encodings produced by the reference encoder (alternative TWCC chunkings, unnormalised REMB, padded APP, non-zero reserved bits, unknown XR blocks, stray CCFB bits, BYE reason forms) + count-inflated SR/RR/SDES/BYE, oracle: decoded fields == model / must-reject",
+         "Exploration: the decoder is fed encodings its own encoder never produces, built by the reference from a model value, through both decode paths; every semantic field must equal the model. Count-inflated headers must be rejected.",
+         "Variants are restricted to the forms the property statement lists; " + REF),
+ "C05": ("rapid generated values incl. deliberately unaligned variable-length parts, intrinsic oracle: len == MarshalSize, multiple of 4, header fields, Header()/Len() accessors, exactly one frame under an independent splitter",
+         "Exploration: every value for which Marshal succeeds (D plus SR/RR extensions of every length mod 4, odd XR chunk counts, unknown XR bodies of any length, odd CCFB/TWCC element counts) is checked for size/alignment/header consistency and that an independent frame splitter sees exactly one frame.",
+         "PT/FMT table from the RFCs (refmodel.PTFMT); rapid v1.3.0; Go toolchain."),
+ "C06": ("rapid generated frame sequences with fault injection (truncation, surplus octets, overlong header, malformed frame), metamorphic oracle: Unmarshal(a||b) == Unmarshal(a) ++ Unmarshal(b), locality per frame, error+nil on any fault",
+         "Exploration: sequences of 1..12 frames of all types (reference encodings, pion encodings, raw frames) are concatenated; each returned packet must equal the decode of its frame alone, every split point must commute with concatenation, and any injected fault or an empty datagram must yield an error and no packets. Frames are delimited by the reference splitter, not by pion.",
+         REF),
+ "C07": ("exhaustive enumeration of all 256 PT x 32 FMT header cells + all ordered pairs of packet types with generated bodies, oracle: reference dispatch table / must-reject",
+         "Exploration, exhaustive over the 8192 (PT, FMT) cells and over the 14x15 ordered type pairs (bodies sampled): dynamic type of the returned packet equals the table, unknown cells come back as RawPacket with verbatim bytes, foreign well-formed packets are rejected by each typed decoder, own output is dispatched back to its own type.",
+         "Bodies are sampled, cells and pairs are enumerated; " + REF),
+ "C08": ("boundary-value generation per wire limit (at, below, above, far beyond) embedded in generated values, oracle: Marshal error and no bytes above the limit; on success the reference decoder must recover the whole value",
+         "Exploration: for each limit row (31 counts, 255-octet texts, 2^24 loss, 255 REMB SSRCs, 16384 CCFB metrics, APP name/subtype, REMB sign, TWCC delta ranges, SDES type 0, plus the general-clause rows: SLI/TWCC/CCFB/XR sub-byte fields, list sizes that overflow the length word) values at L-1, L, L+1 and far beyond are marshalled; success implies decode-and-compare equality with the full value, failure implies no bytes.",
+         REF),
+ "C09": ("rapid byte-level generation (mutated/spliced/resized valid encodings, reference variant encodings, frames >= 64 KiB) + native fuzzing (thorough), oracle: decode-encode-decode idempotence, Marshal never panics",
+         "Exploration over accepted inputs that are not the library's canonical output: every datagram accepted by rtcp.Unmarshal is re-marshalled (panic = violation); if that succeeds the new bytes must decode to an equal packet list. TWCC with an inconsistent carried header is exempt as the statement says (counted).",
+         "Acceptance rate and non-canonical share are measured and reported; " + REF),
+ "C10": ("rapid generated D-values of every type, oracle: independently written per-type SSRC list (refmodel.DestSSRC), on the built value and after encode/decode",
+         "Exploration: DestinationSSRC() of every generated packet (lists at 0/1/max, compound, raw) must equal, in order, the list the statement specifies, both for the in-memory value and for the packet obtained by decoding its encoding.",
+         REF),
+ "C11": ("bounded-exhaustive enumeration of all kind sequences up to length L (quick 4, thorough 6) with drawn members + rapid long sequences, oracle: reference 3-state compound grammar",
+         "Exploration, exhaustive over all sequences of the 10 kinds up to the length bound: Validate, Marshal, Unmarshal agree with the reference grammar (both directions of the iff), CNAME() returns the first CNAME text, DestinationSSRC/MarshalSize follow the first member / the sum.",
+         "Members are drawn (CNAME position, surrounding items), sequences are enumerated; " + REF),
  "C12": ("bounded-exhaustive enumeration (2^32 pairs thorough) + rapid generated lists vs reference expansion",
          "Exploration: every (PacketID, bitmap) pair in the enumerated range and every early-stop position is checked against an independent expansion; sequence-number lists are generated (clusters with gaps 0,1,15..18,33, wrap, reversal, shuffle) and the set covered by the returned pairs is compared with the input set in both directions. Thorough enumerates all 2^32 pairs.",
-         "Lists are sampled, not enumerated (except all 2- and 3-element lists near 0 and the wrap); rapid v1.3.0; Go toolchain.",
-         "DESIGN.md section 4 C12"),
+         "Lists are sampled, not enumerated (except all 2- and 3-element lists near 0 and the wrap); rapid v1.3.0; Go toolchain."),
+ "C13": ("rapid TWCC-targeted byte generation + native fuzzing (thorough) judged by an independent expansion of the raw bytes; rapid status sequences x two independent chunkings judged by chunking invariance; exhaustive short sequences (thorough)",
+         "Exploration with two oracles: (A) everything TransportLayerCC.Unmarshal accepts must agree with an independent int-arithmetic walk of the raw bytes (chunks, clipped runs, delta sizes/values/positions, declared-length bounds); (B) two different valid chunkings of the same generated status sequence must decode to the same statuses and deltas, which must equal the generated ones.",
+         REF),
+ "C14": ("exhaustive enumeration: all 2^24 wire (exp, mantissa) pairs; float32 bitrates on a stride plus dense windows (quick) / all non-negative finite float32 (thorough); exact float64 reference arithmetic",
+         "Exploration, exhaustive for decoding (2^24 pairs, both tiers) and for encoding in the thorough tier (all 2^31-2^23 non-negative finite float32): exact value, floor-to-18-bit-mantissa with minimal exponent, saturation, monotonicity in bit-pattern order, negative rejection, SSRC count octet for 0..255 (256 must fail).",
+         "All quantities are exactly representable in float64, so no tolerance is used; Go math library."),
+ "C15": ("rapid generated block sequences + exhaustive ordered pairs/triples of block kinds, oracles: independent block walker over Marshal output, per-block decode independence (metamorphic), unknown-block byte preservation",
+         "Exploration: XR packets over the 7 defined kinds and unknown kinds in every order (all pairs and triples of kinds enumerated, fields generated) are marshalled and walked by an independent parser (BT, length words, type-specific bits in RFC 3611 positions), decoded back (Go type per BT, equal fields), each block must decode identically alone and among neighbours, and unknown blocks must survive decode->Marshal verbatim.",
+         REF),
+ "C16": ("bounded-exhaustive enumeration of each unit's complete finite domain (strided in quick for the 2^30/2^32 domains, complete in thorough), identity oracles in both directions + reference packing",
+         "Exploration, exhaustive per unit: header fields and raw header words, TWCC chunk words, 1/2-octet deltas, 24-bit loss counts, RFC 8888 metric blocks, XR chunk accessors, NACK pairs, SLI and FIR entries: encode-then-decode is the identity on values, decode-then-encode the identity on canonical words, packing equals the reference; rejection rules for version/short headers/count > 31.",
+         "Quick strides the 2^30 and 2^32 domains with odd multipliers plus boundary sets; thorough covers them completely; FIR's 2^40 domain is sampled in both."),
+ "C17": ("rapid generated packets (decoded from accepted bytes and constructed values incl. out-of-range enums, huge bitrates) + exhaustive enum/REMB sweeps + native fuzzing (thorough), oracle: String/%v/%+v return without panic (fmt's PANIC marker searched explicitly)",
+         "Exploration: String() is called under recover and fmt verbs are scanned for fmt's swallowed-panic marker on every packet returned by Unmarshal over generated accepted inputs, on constructed values of every type (empty/maximal lists, Bitrate up to MaxFloat32/Inf/NaN, unknown enums), on all 256 values of each enum type and all 2^16 XR chunks, on compounds mixing all types, and on all decodable REMB (exp, mantissa) pairs.",
+         "fmt's behaviour of converting panics in String methods into '%!v(PANIC=' text (checked by a self-test)."),
+ "C18": ("rapid state-machine histories with deep snapshots (purity) + generated concurrent scripts under the Go race detector with sequential/concurrent differential results",
+         "Exploration: (A) model-based histories of Marshal/MarshalSize/DestinationSSRC/String/Header/Unmarshal/Validate/CNAME over a pool of packets and buffers with deep snapshots compared after every step and every earlier result re-compared (exposes scratch buffers, memoisation, in-place normalisation); (B) the same operations from 4..32 goroutines on distinct and shared packets in a -race build: any race report (exit 66) or any result differing from the sequential run is a violation.",
+         "(B) does not enumerate interleavings: it relies on the race detector being a happens-before detector, so unsynchronised conflicting accesses are reported whatever the schedule; a bug hidden behind correct synchronisation and needing a specific interleaving is out of reach (DESIGN.md C18)."),
 }
-
-PENDING_REASON = "check not built yet (implementation in progress; the design in DESIGN.md section 4 applies)"
 
 def main():
     checks = []
-    for pid in sorted(CLAIMED):
-        tech, text, note, ref = CLAIMED[pid]
+    claimed = [p for p in sorted(C) if p not in PENDING]
+    for pid in claimed:
+        tech, text, note = C[pid]
         checks.append({
             "property_id": pid,
             "quick_cmd": f"/verif/bin/vcheck run --prop {pid} --tier quick",
@@ -23,17 +76,17 @@ def main():
             "evidence_file": f"/verif/evidence/{pid}.json",
             "replay_cmd_template": f"/verif/bin/vcheck replay --prop {pid} --file {{path}}",
             "engine": "vcheck",
-            "level_claimed": {"category": "exploration", "text": text, "design_ref": ref},
+            "level_claimed": {"category": "exploration", "text": text, "design_ref": f"DESIGN.md section 4 {pid}"},
             "level_note": note,
             "technique": tech,
         })
-    na = [{"property_id": f"C{i:02d}", "reason": PENDING_REASON} for i in range(1, 19) if f"C{i:02d}" not in CLAIMED]
+    na = [{"property_id": p, "reason": "check not built yet (implementation in progress; the design in DESIGN.md section 4 applies)"} for p in sorted(PENDING)]
     m = {
         "version": 1,
         "setup_cmd": "cd /verif && ./setup.sh",
         "hooks": {
             "guard": "verif",
-            "enable": "go test -tags verif (the harness is an external module importing /repo through a replace directive; no hooks are needed so far)",
+            "enable": "go test -tags verif (the harness is an external Go module that imports /repo through a replace directive; no hooks were needed, so no source file in /repo carries the tag)",
             "baseline_off_cmd": "cd /repo && go test -vet=off -count=1 -timeout 25m ./...",
             "source_commits": [],
             "add_only": True,
@@ -41,12 +94,12 @@ def main():
         "engines": [{
             "name": "vcheck",
             "path": "/verif/cmd/vcheck",
-            "serves_properties": sorted(CLAIMED),
-            "kind_free_text": "Go driver: rebuilds the check binary against /repo's working tree, runs known-finding witnesses, shards rapid/enumerator/native-fuzz searches over processes, merges statistics into evidence, writes replay files",
+            "serves_properties": claimed,
+            "kind_free_text": "Go driver: rebuilds the check binary against /repo's working tree, runs known-finding witnesses, shards rapid / enumerator / native-fuzz searches over processes, merges statistics into evidence, writes replay files",
         }],
         "checks": checks,
         "not_applicable": na,
-        "notes": "All checks are property-based tests / fuzzers with explicit oracles (independent reference codec, round trips, metamorphic relations, bounded-exhaustive enumeration). Exit 0 = held on everything explored, 1 = VIOLATION line, 2 = inconclusive (build failure, budget). See DESIGN.md.",
+        "notes": "All checks are property-based tests / fuzzers with explicit oracles (independent reference codec, round trips, metamorphic relations, bounded-exhaustive enumeration). Exit 0 = held on everything explored, 1 = VIOLATION line, 2 = inconclusive (build failure, budget). Known findings: /verif/known_findings.json. See DESIGN.md.",
     }
     json.dump(m, open("/verif/MANIFEST.json", "w"), indent=1)
     print("wrote MANIFEST.json with", len(checks), "checks,", len(na), "not_applicable")
